@@ -92,7 +92,10 @@ impl DebugServer {
             std::thread::sleep(Duration::from_millis(10));
         }
         if thread.is_finished() {
-            thread.join().expect("Could not join debugger thread");
+            // A debugger thread that panicked earlier on should not turn the shutdown into a panic as well
+            if thread.join().is_err() {
+                log::error!("The debugger thread had panicked.");
+            }
         } else {
             log::debug!("Debugger thread is still busy. Not waiting for it any longer.");
         }
